@@ -166,6 +166,21 @@ func (c *Context) Err() (err error) {
 	return
 }
 
+// recordNaN records the recovered panic value v in c and reports true if v is a
+// decimal.ErrNaN. Any other panic value is left alone (the caller re-panics).
+func (c *Context) recordNaN(v interface{}) bool {
+	err, ok := v.(error)
+	if !ok {
+		return false
+	}
+	var nan decimal.ErrNaN
+	if !errors.As(err, &nan) {
+		return false
+	}
+	c.err = nan
+	return true
+}
+
 // Set sets z's to the value of x and returns z rounded using c's precision
 // and rounding mode.
 func (c *Context) Set(z, x *decimal.Decimal) *decimal.Decimal {
@@ -194,7 +209,7 @@ func (c *Context) Add(z, x, y *decimal.Decimal) (r *decimal.Decimal) {
 		}
 		defer func() {
 			if err := recover(); err != nil {
-				if !errors.As(err.(error), &c.err) {
+				if !c.recordNaN(err) {
 					panic(err)
 				}
 				r = z
@@ -212,7 +227,7 @@ func (c *Context) Sub(z, x, y *decimal.Decimal) (r *decimal.Decimal) {
 		}
 		defer func() {
 			if err := recover(); err != nil {
-				if !errors.As(err.(error), &c.err) {
+				if !c.recordNaN(err) {
 					panic(err)
 				}
 				r = z
@@ -231,7 +246,7 @@ func (c *Context) FMA(z, x, y, u *decimal.Decimal) (r *decimal.Decimal) {
 		}
 		defer func() {
 			if err := recover(); err != nil {
-				if !errors.As(err.(error), &c.err) {
+				if !c.recordNaN(err) {
 					panic(err)
 				}
 				r = z
@@ -249,7 +264,7 @@ func (c *Context) Mul(z, x, y *decimal.Decimal) (r *decimal.Decimal) {
 		}
 		defer func() {
 			if err := recover(); err != nil {
-				if !errors.As(err.(error), &c.err) {
+				if !c.recordNaN(err) {
 					panic(err)
 				}
 				r = z
@@ -267,7 +282,7 @@ func (c *Context) Quo(z, x, y *decimal.Decimal) (r *decimal.Decimal) {
 		}
 		defer func() {
 			if err := recover(); err != nil {
-				if !errors.As(err.(error), &c.err) {
+				if !c.recordNaN(err) {
 					panic(err)
 				}
 				r = z
@@ -308,7 +323,7 @@ func (c *Context) Sqrt(z, x *decimal.Decimal) (r *decimal.Decimal) {
 		}
 		defer func() {
 			if err := recover(); err != nil {
-				if !errors.As(err.(error), &c.err) {
+				if !c.recordNaN(err) {
 					panic(err)
 				}
 				r = z
